@@ -470,6 +470,34 @@ for item in spec.get('synthetic', []):
         load(io.BytesIO(ob.getvalue()))
     except Exception as ex:
         out.setdefault('preload_errors', []).append(repr(ex))
+fresh = spec.get('fresh_doc')
+if fresh:
+    # ONE document in a fresh interpreter: the first thing this process renders (which namespaces are registered when a root
+    # start tag is written depends on what was constructed before - nothing else has been here)
+    import io, zipfile
+    import odf.opendocument as OD, odf.office as OF
+    if fresh['gen']:
+        d = getattr(OD, 'OpenDocument' + fresh['cls'])()
+    else:
+        mt = {'Text': 'text', 'Spreadsheet': 'spreadsheet', 'Presentation': 'presentation', 'Drawing': 'graphics',
+              'Chart': 'chart', 'Image': 'image', 'TextMaster': 'text-master'}[fresh['cls']]
+        d = OD.OpenDocument(u'application/vnd.oasis.opendocument.' + mt, add_generator=False)
+        body = {'TextMaster': 'Text'}.get(fresh['cls'], fresh['cls'])
+        d.body.addElement(getattr(OF, body)())
+    if fresh.get('title'):
+        from odf import dc
+        d.meta.addElement(dc.Title(text=u'a < b'))
+    outs = []
+    for call in fresh['order']:
+        if call == 'save':
+            b = io.BytesIO(); d.save(b); z = zipfile.ZipFile(io.BytesIO(b.getvalue()))
+            for n in z.namelist():
+                if n.endswith('.xml'):
+                    outs.append(['zip:' + n, z.read(n).decode('utf-8')])
+        else:
+            r = getattr(d, call)()
+            outs.append([call, r.decode('utf-8') if isinstance(r, bytes) else r])
+    out['fresh_outs'] = outs
 for ns in spec.get('touch', []):
     Element(qname=(ns, u'probe'), check_grammar=False)
 docs = []
@@ -556,3 +584,25 @@ def alive_across_load_check(chk):
             elif X.sort_attrs(t1) != X.sort_attrs(t2):
                 chk.fail('history-dependent-infoset', case, str(X.first_diff(X.sort_attrs(t1), X.sort_attrs(t2))))
 
+
+
+def fresh_process_documents_check(chk):
+    """the FIRST document a process renders: every document class, with and without the generator element / other metadata, each
+    rendering call first - every stream well-formed (a namespace must be registered before the root start tag that declares it is
+    written, whatever the process constructed before: here, nothing)"""
+    classes = ['Text', 'Spreadsheet', 'Presentation', 'Drawing', 'Chart', 'Image', 'TextMaster']
+    calls = ['metaxml', 'settingsxml', 'stylesxml', 'contentxml', 'xml', 'save']
+    recs = []
+    for i, cls in enumerate(classes):
+        recs.append({'cls': cls, 'gen': False, 'title': False, 'order': [calls[i % len(calls)]] + calls})
+    for i, first in enumerate(calls):
+        recs.append({'cls': classes[i % 2], 'gen': False, 'title': bool(i % 2), 'order': [first] + calls})
+        recs.append({'cls': classes[(i + 1) % 3], 'gen': True, 'title': False, 'order': [first]})
+    for rec in recs:
+        out = run_child({'fresh_doc': rec, 'import_first': True})
+        chk.case(('fresh-doc', rec['cls'], rec['gen'], rec['title'], rec['order'][0])); chk.count('fresh_process_documents')
+        for name, text in out.get('fresh_outs', []):
+            ok, t = wellformed(text)
+            if not ok:
+                chk.fail('not-wellformed-in-fresh-process', {'document': rec, 'rendering': name}, '%s: %s' % (t, text[:300]))
+                break
